@@ -10,7 +10,7 @@ BIN = os.path.join(ROOT, "bin", "sim.test")
 def digests(prop, seed, runs, procs, known):
     env = dict(os.environ, VERIF_PROP=prop, VERIF_SEED=str(seed), VERIF_WORKER="0", VERIF_NWORKERS="1",
                VERIF_MAX_RUNS=str(runs), VERIF_BUDGET_S="600", VERIF_DIGEST="1", VERIF_NO_MINIMISE="1",
-               VERIF_MAX_VIOLATIONS="1000", VERIF_KNOWN=known, VERIF_REPLAY_DIR="/tmp/verif-selftest-replays",
+               VERIF_MAX_VIOLATIONS="1000", VERIF_KNOWN=known, VERIF_REPLAY_DIR=os.path.join(ROOT, "work", "selftest-replays"),
                GOMAXPROCS=str(procs))
     env.pop("VERIF_OUT", None)
     p = subprocess.run([BIN, "-test.run", "^TestCheck$", "-test.timeout", "0"], env=env, capture_output=True, text=True)
@@ -18,7 +18,7 @@ def digests(prop, seed, runs, procs, known):
 
 
 def main(argv):
-    props = [a for a in argv if not a.startswith("-")] or ["C17", "C02", "C03", "C04", "C08", "C10", "C09", "C14"]
+    props = [a for a in argv if not a.startswith("-")] or ["C17", "C02", "C03", "C04", "C08", "C10", "C09", "C14", "C05", "C06", "C07", "C01", "C11", "C12", "C13", "C19"]
     runs = int(os.environ.get("SELFTEST_RUNS", "12"))
     reps = [(1, 1), (2, 4), (3, 16), (4, 16)]
     bad = 0
